@@ -610,6 +610,11 @@ func registerType(tov reflect.Type) error {
 			n := int(binary.BigEndian.Uint32(packet[:4]))
 			packet = packet[4:]
 
+			// (before the map is made: the count comes from the wire)
+			if n > len(packet) {
+				return nil, nil, fmt.Errorf("incorrect data length")
+			}
+
 			x := reflect.MakeMapWithSize(tov, n)
 			if value == nil {
 				value = &x
@@ -619,10 +624,6 @@ func registerType(tov reflect.Type) error {
 
 			if n == 0 {
 				return value, packet, nil
-			}
-
-			if n > len(packet) {
-				return nil, nil, fmt.Errorf("incorrect data length")
 			}
 
 			if state.child == nil {
